@@ -22,7 +22,7 @@ Section Laws.
   Hypothesis wplace_le : forall w t s, wok w -> sok s -> can L w s = true -> wle w (wplace L w t s).
   Hypothesis wplace_ok : forall w t s, wok w -> sok s -> can L w s = true -> wok (wplace L w t s).
   Hypothesis wreset_ok : forall w, wok w -> wok (wreset L w).
-  Hypothesis can_antitone : forall w w' s, sok s -> wle w w' -> can L w' s = true -> can L w s = true.
+  Hypothesis can_antitone : forall w w' s, wok w -> wok w' -> sok s -> wle w w' -> can L w' s = true -> can L w s = true.
 
   Definition cok (c : cluster) : Prop := Forall (fun p => Forall wok (snd p)) c.
   Definition tasks_ok (ts : list task) : Prop := Forall (fun t => Forall sok (t_strats t)) ts.
@@ -105,29 +105,36 @@ Section Laws.
   Qed.
 
   (* what fits a fuller cluster fits the emptier one *)
-  Lemma pool_can_antitone p p' s : sok s -> ple p p' -> pool_can L p' s = true -> pool_can L p s = true.
+  Lemma pool_can_antitone p p' s : sok s -> Forall wok (snd p) -> Forall wok (snd p') -> ple p p' ->
+    pool_can L p' s = true -> pool_can L p s = true.
   Proof.
-    intros Hs [_ H]. unfold pool_can. induction H as [|w w' ws ws' Hw _ IH]; cbn [existsb]; [auto|].
-    intros X. apply orb_true_iff in X. apply orb_true_iff. destruct X as [X|X]; [left; eapply can_antitone; eauto|right; auto].
+    intros Hs Ho Ho' [_ H]. unfold pool_can. revert Ho Ho'.
+    induction H as [|w w' ws ws' Hw _ IH]; intros Ho Ho'; cbn [existsb]; [auto|].
+    inversion Ho; subst. inversion Ho'; subst.
+    intros X. apply orb_true_iff in X. apply orb_true_iff.
+    destruct X as [X|X]; [left; eapply can_antitone; eauto|right; auto].
   Qed.
-  Lemma fits_somewhere_antitone c c' s : sok s -> cle c c' -> fits_somewhere L c' s = true -> fits_somewhere L c s = true.
+  Lemma fits_somewhere_antitone c c' s : sok s -> cok c -> cok c' -> cle c c' ->
+    fits_somewhere L c' s = true -> fits_somewhere L c s = true.
   Proof.
-    intros Hs. unfold fits_somewhere. induction 1 as [|p p' c c' Hp _ IH]; cbn [existsb]; [auto|].
+    intros Hs Ho Ho' H. unfold fits_somewhere. revert Ho Ho'.
+    induction H as [|p p' c c' Hp _ IH]; intros Ho Ho'; cbn [existsb]; [auto|].
+    inversion Ho; subst. inversion Ho'; subst.
     intros X. apply orb_true_iff in X. apply orb_true_iff.
     destruct X as [X|X]; [left; eapply pool_can_antitone; eauto|right; auto].
   Qed.
-  Lemma task_fits_antitone c c' (x : task) : Forall sok (t_strats x) -> cle c c' ->
+  Lemma task_fits_antitone c c' (x : task) : Forall sok (t_strats x) -> cok c -> cok c' -> cle c c' ->
     task_fits L c' x = true -> task_fits L c x = true.
   Proof.
-    intros Hs H. unfold task_fits. induction Hs as [|s r Hs1 _ IH]; cbn [existsb]; [auto|].
+    intros Hs Ho Ho' H. unfold task_fits. induction Hs as [|s r Hs1 _ IH]; cbn [existsb]; [auto|].
     intros X. apply orb_true_iff in X. apply orb_true_iff.
     destruct X as [X|X]; [left; eapply fits_somewhere_antitone; eauto|right; auto].
   Qed.
-  Lemma task_unfit_later c c' (x : task) : Forall sok (t_strats x) -> cle c c' ->
+  Lemma task_unfit_later c c' (x : task) : Forall sok (t_strats x) -> cok c -> cok c' -> cle c c' ->
     task_fits L c x = false -> task_fits L c' x = false.
   Proof.
-    intros Hs H F. destruct (task_fits L c' x) eqn:E; [|reflexivity].
-    rewrite (task_fits_antitone c c' x Hs H E) in F. discriminate.
+    intros Hs Ho Ho' H F. destruct (task_fits L c' x) eqn:E; [|reflexivity].
+    rewrite (task_fits_antitone c c' x Hs Ho Ho' H E) in F. discriminate.
   Qed.
 
   (* ---------- sortedness around an index *)
@@ -197,9 +204,9 @@ Section Laws.
     assert (tasks_ok (x :: skipn (S i) (ordered L P now offered))) as Hpost.
     { constructor; [|apply tasks_ok_skipn; exact Hto].
       unfold tasks_ok in Hto. rewrite Forall_forall in Hto. apply Hto. eapply nth_error_In; exact Hn. }
-    assert (cle V cf) as Hle by (eapply run_le; [exact HokV|exact Hpost|exact R2]).
+    destruct (run_le P e now _ _ _ _ HokV Hpost R2) as [Hle Hokcf].
     exists V. split; [exact R1|]. split; [apply task_fits_false; exact F|]. split; [exact Hle|].
-    split; [apply task_fits_false; eapply task_unfit_later; [inversion Hpost; assumption|exact Hle|exact F]|].
+    split; [apply task_fits_false; eapply task_unfit_later; [inversion Hpost; assumption|exact HokV|exact Hokcf|exact Hle|exact F]|].
     apply ordered_split. exact Hn.
   Qed.
   (* joint feasibility, abstractly: the ledger invariant holds of every worker of the final virtual cluster *)
